@@ -13,8 +13,9 @@
 //	wait: at every request k - F <= 2.
 //
 // The bound is timing independent (no false alarm however the goroutines are scheduled); the
-// slow consumer only makes a violation certain: the callback of the first sample of each
-// segment does not return before the downloader is seen parked in its throttle (hook
+// slow consumer only makes a violation certain: the callback of one chosen sample of each
+// segment (its first sample, or the first sample of its LAST part for fMP4 segments made of
+// several moof+mdat pairs) does not return before the downloader is seen parked in its throttle (hook
 // "queue:waitBelow:unlocked"), or has fetched the last segment of a complete playlist, or the
 // oracle has already fired.  No timeouts are used for inference (a watchdog turns a hang into an
 // infrastructure error after 3 reproductions).
@@ -23,9 +24,11 @@ package main
 import (
 	"bytes"
 	"encoding/json"
+	"errors"
 	"fmt"
 	"io"
 	"net/http"
+	"runtime"
 	"strings"
 	"sync"
 	"time"
@@ -44,6 +47,28 @@ type e2eScenario struct {
 	Kind   string `json:"kind"`   // vod: complete playlist; live: one more segment per reload; burst: live, then 5 more segments + ENDLIST at once
 	N      int    `json:"n"`      // vod: segments listed; live: segments to deliver before Close
 	Slow   bool   `json:"slow"`
+	// fMP4 only: moof+mdat pairs per media segment (0 = 1), as a Low-Latency packager produces them
+	Parts int `json:"parts,omitempty"`
+	// slow consumer: hold the first sample of the LAST part of each segment instead of the segment's first sample
+	HoldLastPart bool `json:"hold_last_part,omitempty"`
+}
+
+func (sc e2eScenario) parts() int {
+	if sc.Format != "fmp4" || sc.Parts < 1 {
+		return 1
+	}
+	return sc.Parts
+}
+
+// samples per segment
+func (sc e2eScenario) sps() int { return sc.parts() * e2eSamplesPerPart }
+
+// index (within its segment) of the sample the slow consumer holds
+func (sc e2eScenario) holdAt() int {
+	if sc.HoldLastPart {
+		return (sc.parts() - 1) * e2eSamplesPerPart
+	}
+	return 0
 }
 
 func e2eScenarios(tier string) []e2eScenario {
@@ -53,6 +78,11 @@ func e2eScenarios(tier string) []e2eScenario {
 		{Name: "ts-live-slow", Format: "ts", Kind: "live", N: 8, Slow: true},
 		{Name: "ts-burst-slow", Format: "ts", Kind: "burst", Slow: true},
 		{Name: "fmp4-vod-slow", Format: "fmp4", Kind: "vod", N: 6, Slow: true},
+		// media segments made of several parts (moof+mdat pairs): a segment is processed only when
+		// every part of it went through the callback
+		{Name: "fmp4-vod-3parts-slow-lastpart", Format: "fmp4", Kind: "vod", N: 6, Slow: true, Parts: 3, HoldLastPart: true},
+		{Name: "fmp4-vod-2parts-slow-firstpart", Format: "fmp4", Kind: "vod", N: 6, Slow: true, Parts: 2},
+		{Name: "fmp4-live-4parts-slow-lastpart", Format: "fmp4", Kind: "live", N: 6, Slow: true, Parts: 4, HoldLastPart: true},
 	}
 	if tier == "thorough" {
 		s = append(s,
@@ -61,14 +91,19 @@ func e2eScenarios(tier string) []e2eScenario {
 			e2eScenario{Name: "ts-burst-fast", Format: "ts", Kind: "burst"},
 			e2eScenario{Name: "fmp4-vod-fast", Format: "fmp4", Kind: "vod", N: 6},
 			e2eScenario{Name: "fmp4-live-slow", Format: "fmp4", Kind: "live", N: 8, Slow: true},
+			e2eScenario{Name: "fmp4-vod-2parts-slow-lastpart", Format: "fmp4", Kind: "vod", N: 8, Slow: true, Parts: 2, HoldLastPart: true},
+			e2eScenario{Name: "fmp4-vod-4parts-slow-lastpart", Format: "fmp4", Kind: "vod", N: 8, Slow: true, Parts: 4, HoldLastPart: true},
+			e2eScenario{Name: "fmp4-vod-4parts-slow-firstpart", Format: "fmp4", Kind: "vod", N: 8, Slow: true, Parts: 4},
+			e2eScenario{Name: "fmp4-vod-3parts-fast", Format: "fmp4", Kind: "vod", N: 8, Parts: 3},
+			e2eScenario{Name: "fmp4-burst-3parts-slow-lastpart", Format: "fmp4", Kind: "burst", Slow: true, Parts: 3, HoldLastPart: true},
 		)
 	}
 	return s
 }
 
 const (
-	e2eSamplesPerSeg = 3
-	e2eTick          = 900 // 10 ms at 90 kHz
+	e2eSamplesPerPart = 3
+	e2eTick           = 900 // 10 ms at 90 kHz
 )
 
 var e2eSPS = []byte{
@@ -87,12 +122,12 @@ func e2eTSSegment(idx int) []byte {
 	if err := w.Initialize(); err != nil {
 		panic(err)
 	}
-	for i := 0; i < e2eSamplesPerSeg; i++ {
+	for i := 0; i < e2eSamplesPerPart; i++ {
 		au := [][]byte{{1, 4, 5, 6}}
 		if i == 0 {
 			au = [][]byte{e2eSPS, e2ePPS, {5, 1}}
 		}
-		dts := int64(90000 + (idx*e2eSamplesPerSeg+i)*e2eTick)
+		dts := int64(90000 + (idx*e2eSamplesPerPart+i)*e2eTick)
 		if err := w.WriteH264(tr, dts, dts, au); err != nil {
 			panic(err)
 		}
@@ -114,22 +149,27 @@ func e2eFMP4Init() []byte {
 	}}})
 }
 
-func e2eFMP4Segment(idx int) []byte {
-	var ss []*fmp4.PartSample
-	for i := 0; i < e2eSamplesPerSeg; i++ {
-		au := [][]byte{{1, 4, 5, 6}}
-		if i == 0 {
-			au = [][]byte{e2eSPS, e2ePPS, {5, 1}}
+func e2eFMP4Segment(idx, parts int) []byte {
+	var out []byte
+	for p := 0; p < parts; p++ {
+		var ss []*fmp4.PartSample
+		for i := 0; i < e2eSamplesPerPart; i++ {
+			au := [][]byte{{1, 4, 5, 6}}
+			if i == 0 {
+				au = [][]byte{e2eSPS, e2ePPS, {5, 1}}
+			}
+			b, err := h264.AVCC(au).Marshal()
+			if err != nil {
+				panic(err)
+			}
+			ss = append(ss, &fmp4.PartSample{Duration: e2eTick, Payload: b, IsNonSyncSample: i != 0})
 		}
-		b, err := h264.AVCC(au).Marshal()
-		if err != nil {
-			panic(err)
-		}
-		ss = append(ss, &fmp4.PartSample{Duration: e2eTick, Payload: b, IsNonSyncSample: i != 0})
+		first := (idx*parts + p) * e2eSamplesPerPart
+		out = append(out, e2eMP4(&fmp4.Part{SequenceNumber: uint32(idx*parts + p), Tracks: []*fmp4.PartTrack{{
+			ID: 1, BaseTime: uint64(90000 + first*e2eTick), Samples: ss,
+		}}})...)
 	}
-	return e2eMP4(&fmp4.Part{SequenceNumber: uint32(idx), Tracks: []*fmp4.PartTrack{{
-		ID: 1, BaseTime: uint64(90000 + idx*e2eSamplesPerSeg*e2eTick), Samples: ss,
-	}}})
+	return out
 }
 
 type e2eRun struct {
@@ -139,12 +179,13 @@ type e2eRun struct {
 
 	reloads        int
 	segReqs        int  // k
-	samplesEntered int  // F = samplesEntered / e2eSamplesPerSeg
+	samplesEntered int  // F = samplesEntered / sc.sps()
 	parked         bool // the downloader announced its throttle and has made no request since
 	lastServed     bool // the last segment of a complete playlist has been requested
 	endlistSeen    bool
 	stop           bool
 	parks          int
+	events         int // requests + throttle announcements so far
 	maxAhead       int
 	violation      string
 	violationKind  string
@@ -171,6 +212,7 @@ func (r *e2eRun) RoundTrip(req *http.Request) (*http.Response, error) {
 	status := 200
 	r.mu.Lock()
 	r.parked = false
+	r.events++
 	ext := ".ts"
 	if r.sc.Format == "fmp4" {
 		ext = ".mp4"
@@ -204,7 +246,7 @@ func (r *e2eRun) RoundTrip(req *http.Request) (*http.Response, error) {
 			break
 		}
 		k := r.segReqs
-		f := r.samplesEntered / e2eSamplesPerSeg
+		f := r.samplesEntered / r.sc.sps()
 		if k-f > r.maxAhead {
 			r.maxAhead = k - f
 		}
@@ -224,7 +266,7 @@ func (r *e2eRun) RoundTrip(req *http.Request) (*http.Response, error) {
 			r.lastServed = true
 		}
 		if r.sc.Format == "fmp4" {
-			body = e2eFMP4Segment(idx)
+			body = e2eFMP4Segment(idx, r.sc.parts())
 		} else {
 			body = e2eTSSegment(idx)
 		}
@@ -243,6 +285,7 @@ func (r *e2eRun) hook(point string) {
 	}
 	r.mu.Lock()
 	r.parked = true
+	r.events++
 	r.parks++
 	r.cond.Broadcast()
 	r.mu.Unlock()
@@ -250,14 +293,63 @@ func (r *e2eRun) hook(point string) {
 
 func (r *e2eRun) onSample() {
 	r.mu.Lock()
-	if r.sc.Slow && r.samplesEntered%e2eSamplesPerSeg == 0 {
-		for !(r.parked || r.lastServed || r.violation != "" || r.stop) {
-			r.cond.Wait()
+	if r.sc.Slow && r.samplesEntered%r.sc.sps() == r.sc.holdAt() {
+		self := curGID()
+		for spins := 0; ; spins++ {
+			for !(r.parked || r.lastServed || r.violation != "" || r.stop) {
+				r.cond.Wait()
+			}
+			if r.violation != "" || r.stop {
+				break
+			}
+			// the downloader is throttled (or done).  Hold on until the whole client is at rest: a
+			// stream processor that is still running may pull another segment and un-throttle the
+			// downloader, which must then be seen by the oracle before this segment completes
+			ev := r.events
+			r.mu.Unlock()
+			quiet := e2eClientAtRest(self)
+			r.mu.Lock()
+			if quiet && r.events == ev {
+				break
+			}
+			r.mu.Unlock()
+			if spins < 100 {
+				runtime.Gosched()
+			} else {
+				time.Sleep(50 * time.Microsecond)
+			}
+			r.mu.Lock()
 		}
 	}
 	r.samplesEntered++
 	r.cond.Broadcast()
 	r.mu.Unlock()
+}
+
+var e2eStackBuf = make([]byte, 1<<20)
+
+// one stop-the-world goroutine dump: every goroutine with a gohlslib frame, except the caller, is
+// blocked (channel operation, select, condition variable) - nothing in the client can move by itself
+func e2eClientAtRest(self string) bool {
+	n := runtime.Stack(e2eStackBuf, true)
+	for _, blk := range bytes.Split(e2eStackBuf[:n], []byte("\n\n")) {
+		m := gidRe.FindSubmatch(blk)
+		if m == nil || string(m[1]) == self || !bytes.Contains(blk, []byte("github.com/bluenviron/gohlslib/v2.")) {
+			continue
+		}
+		h := string(blk[:bytes.IndexByte(blk, '\n')])
+		st := h[strings.Index(h, "[")+1:]
+		if i := strings.IndexAny(st, ",]"); i >= 0 {
+			st = st[:i]
+		}
+		switch st {
+		case "select", "chan receive", "chan send", "sync.Cond.Wait", "sync.WaitGroup.Wait", "IO wait",
+			"select (no cases)", "chan receive (nil chan)":
+		default:
+			return false
+		}
+	}
+	return true
 }
 
 type e2eResult struct {
@@ -269,6 +361,7 @@ type e2eResult struct {
 	segReqs   int
 	delivered int
 	hang      string
+	earlyEOS  string
 }
 
 func e2eExecute(sc e2eScenario) e2eResult {
@@ -277,9 +370,9 @@ func e2eExecute(sc e2eScenario) e2eResult {
 	gohlslib.VerifSetHook(r.hook)
 	defer gohlslib.VerifSetHook(hookFn)
 
-	want := sc.N * e2eSamplesPerSeg
+	want := sc.N * sc.sps()
 	if sc.Kind == "burst" {
-		want = 9 * e2eSamplesPerSeg
+		want = 9 * sc.sps()
 	}
 	cl := &gohlslib.Client{
 		URI:        "http://stub.invalid/index.m3u8",
@@ -320,7 +413,15 @@ func e2eExecute(sc e2eScenario) e2eResult {
 		// the client ended by itself before everything was delivered
 		r.mu.Lock()
 		if r.samplesEntered < want {
-			res.hang = fmt.Sprintf("the client terminated after %d of %d samples: %v", r.samplesEntered, want, werr)
+			if errors.Is(werr, gohlslib.ErrClientEOS) && r.lastServed {
+				// pull hands the end-of-stream marker to the processor after the last segment: the
+				// marker can only be handled once that segment has been processed completely
+				res.earlyEOS = fmt.Sprintf("the client ended with 'end of stream' when only %d of the %d samples of the %d downloaded segments had gone through the data callback: "+
+					"the end-of-stream marker was handled while the segment before it was still being processed (the rest of that segment is never delivered)",
+					r.samplesEntered, want, r.segReqs)
+			} else {
+				res.hang = fmt.Sprintf("the client terminated after %d of %d samples: %v", r.samplesEntered, want, werr)
+			}
 		}
 		r.mu.Unlock()
 	case <-time.After(20 * time.Second):
@@ -348,13 +449,13 @@ func e2eLeg(scs []e2eScenario, dist map[string]int) (fails []failure, errs []str
 		var res e2eResult
 		for try := 0; try < 3; try++ {
 			res = e2eExecute(sc)
-			if res.hang == "" {
+			if res.hang == "" || res.violation != "" {
 				break
 			}
 			dist["e2e:watchdog-retry"]++
 		}
 		n++
-		if res.hang != "" {
+		if res.hang != "" && res.violation == "" {
 			errs = append(errs, "e2e scenario "+sc.Name+": "+res.hang)
 			continue
 		}
@@ -365,6 +466,11 @@ func e2eLeg(scs []e2eScenario, dist map[string]int) (fails []failure, errs []str
 		if sc.Slow && res.parks == 0 && res.violation == "" {
 			// the slow consumer is supposed to drive the downloader into its throttle
 			errs = append(errs, "e2e scenario "+sc.Name+": the downloader was never seen in its throttle although the consumer was slow")
+		}
+		if res.earlyEOS != "" {
+			in, _ := json.Marshal(sc)
+			fails = append(fails, failure{Signature: "C20:eos-overtakes-segment",
+				What: "real Client, scenario " + sc.Name + ": " + res.earlyEOS, Input: in, trad: true})
 		}
 		if res.violation != "" {
 			in, _ := json.Marshal(sc)
